@@ -224,6 +224,14 @@ def run(tier, seed, ev):
                     for _ in range(len(truths[f]) + 2):
                         ops += ["N"] + rng.choice([[], [], ["R10"], ["C"], ["A4096"]])
                     ej.append("exec - %s %sE%d eod - 0 m %s" % (f, kind, k, ",".join(ops)))
+                # ... and a source that breaks at a byte offset: the read crossing it comes back short, everything after it fails; and one that
+                # never hands over more than a few bytes at a time
+                sz = os.path.getsize(f)
+                for sfx in ["B%d" % x for x in sorted(set([1, 2, 21, 22, 25, 30, sz - 1] + [rng.randrange(1, sz) for _ in range(5)]))] + ["S1", "S5", "S24"]:
+                    ops = []
+                    for _ in range(len(truths[f]) + 2):
+                        ops += ["N"] + rng.choice([[], [], ["R10"], ["C"], ["A4096"]])
+                    ej.append("exec - %s %s%s eod - 0 m %s" % (f, kind, sfx, ",".join(ops)))
         eres = TR.run_sharded(rdrv, ej, sc, "e", timeout=600, cpu_limit=40)
         for jf, tr, n, p in eres:
             spun = any(l.startswith('{"e":"Budget"') for l in open(tr))
